@@ -318,7 +318,7 @@ pub fn run_value_sweep(rep: &Reporter, counter: &AtomicU64) -> u64 {
 }
 
 pub fn run(rep: &Reporter) -> Coverage {
-    let workdir = format!("/verif/.work/{}", std::process::id());
+    let workdir = crate::util::work_dir("w");
     std::fs::create_dir_all(&workdir).expect("workdir");
     let oracle = C05 { roundtrips: AtomicU64::new(0), workdir: workdir.clone(), file_depth: rep.tier.pick(2, 3) };
     let mut cov = Coverage::default();
@@ -379,7 +379,7 @@ pub fn replay(rep: &Reporter, case: &Value) {
             None => println!("  {}: round trip ok", name),
         }
     }
-    let workdir = format!("/verif/.work/replay-{}", std::process::id());
+    let workdir = crate::util::work_dir("replay");
     std::fs::create_dir_all(&workdir).expect("workdir");
     let oracle = C05 { roundtrips: AtomicU64::new(0), workdir: workdir.clone(), file_depth: 99 };
     oracle.files_roundtrip(rep, &store, 0, &|| case.clone());
